@@ -398,6 +398,67 @@ func main() {
 	println("G a", a, "b", b, ok)
 }
 `, n, n, k), []string{fmt.Sprintf("G a %d b %d true", 3*n*k, n*k)}})
+	// 6. sync/atomic: the value semantics of every operation and width (what the
+	// lowering to LLVM instructions must get right even without contention)
+	ps = append(ps, bProgram{"atomic-semantics", `package main
+
+import (
+	"sync/atomic"
+	"unsafe"
+)
+
+func check(name string, ok bool) {
+	if !ok {
+		println("G wrong", name)
+	}
+}
+
+func main() {
+	var i32 int32 = 5
+	check("AddInt32", atomic.AddInt32(&i32, -7) == -2 && i32 == -2)
+	check("SwapInt32", atomic.SwapInt32(&i32, 9) == -2 && atomic.LoadInt32(&i32) == 9)
+	check("CASInt32", !atomic.CompareAndSwapInt32(&i32, 8, 1) && i32 == 9 && atomic.CompareAndSwapInt32(&i32, 9, 1) && i32 == 1)
+	var u32 uint32 = 0xf0
+	check("AddUint32", atomic.AddUint32(&u32, ^uint32(0)) == 0xef)
+	check("AndUint32", atomic.AndUint32(&u32, 0x0f) == 0xef && u32 == 0x0f)
+	check("OrUint32", atomic.OrUint32(&u32, 0x100) == 0x0f && u32 == 0x10f)
+	atomic.StoreUint32(&u32, 77)
+	check("StoreUint32", atomic.LoadUint32(&u32) == 77)
+	var i64 int64 = 1 << 40
+	check("AddInt64", atomic.AddInt64(&i64, 1<<41) == 3<<40)
+	check("SwapInt64", atomic.SwapInt64(&i64, -1) == 3<<40 && atomic.LoadInt64(&i64) == -1)
+	check("CASInt64", atomic.CompareAndSwapInt64(&i64, -1, 1<<50) && !atomic.CompareAndSwapInt64(&i64, -1, 0) && i64 == 1<<50)
+	var u64 uint64 = 1<<63 + 5
+	check("AddUint64", atomic.AddUint64(&u64, 1<<63) == 5)
+	atomic.StoreUint64(&u64, 1<<62)
+	check("LoadUint64", atomic.LoadUint64(&u64) == 1<<62 && atomic.SwapUint64(&u64, 3) == 1<<62)
+	check("CASUint64", atomic.CompareAndSwapUint64(&u64, 3, 4) && u64 == 4)
+	var up uintptr = 100
+	check("AddUintptr", atomic.AddUintptr(&up, 28) == 128 && atomic.LoadUintptr(&up) == 128)
+	check("CASUintptr", atomic.CompareAndSwapUintptr(&up, 128, 1) && !atomic.CompareAndSwapUintptr(&up, 128, 2) && atomic.SwapUintptr(&up, 7) == 1)
+	a, b := 1, 2
+	p := unsafe.Pointer(&a)
+	check("SwapPointer", atomic.SwapPointer(&p, unsafe.Pointer(&b)) == unsafe.Pointer(&a) && atomic.LoadPointer(&p) == unsafe.Pointer(&b))
+	check("CASPointer", !atomic.CompareAndSwapPointer(&p, unsafe.Pointer(&a), nil) && atomic.CompareAndSwapPointer(&p, unsafe.Pointer(&b), unsafe.Pointer(&a)) && p == unsafe.Pointer(&a))
+	atomic.StorePointer(&p, nil)
+	check("StorePointer", atomic.LoadPointer(&p) == nil)
+	var ti atomic.Int64
+	check("Int64 type", ti.Add(5) == 5 && ti.Swap(9) == 5 && ti.CompareAndSwap(9, 10) && ti.Load() == 10)
+	var tu atomic.Uint32
+	tu.Store(3)
+	check("Uint32 type", tu.Add(4) == 7 && tu.Load() == 7 && !tu.CompareAndSwap(3, 0))
+	var tb atomic.Bool
+	check("Bool type", !tb.Load() && !tb.Swap(true) && tb.Load() && tb.CompareAndSwap(true, false) && !tb.Load())
+	var tp atomic.Pointer[int]
+	tp.Store(&a)
+	check("Pointer type", tp.Load() == &a && tp.Swap(&b) == &a && tp.CompareAndSwap(&b, nil) && tp.Load() == nil)
+	var v atomic.Value
+	check("Value nil", v.Load() == nil)
+	v.Store("x")
+	check("Value", v.Load().(string) == "x" && v.Swap("y").(string) == "x" && v.CompareAndSwap("y", "z") && !v.CompareAndSwap("y", "w") && v.Load().(string) == "z")
+	println("G atomic-semantics checked")
+}
+`, []string{"G atomic-semantics checked"}})
 	return ps
 }
 
